@@ -1590,6 +1590,7 @@ func (m *tqModel) noPanics() {
 }
 
 var c06Canaries = []Canary{
+	{Name: "r5-collector-leaves-with-pending", ExpectKey: "C06.R2#collectBatches", Edits: []Edit{{File: "tq/transfer_queue.go", Find: "\t\t} else if len(next) == 0 && len(pending) == 0 && closing {", Repl: "\t\t} else if len(next) == 0 && closing {"}}},
 	{Name: "r4-in-progress-before-begin", ExpectKey: "C06.R7#adapter-in-progress", Edits: []Edit{{File: "tq/transfer_queue.go", Find: "\terr := q.adapter.Begin(q.toAdapterCfg(e), cb)\n\tif err != nil {\n\t\treturn err\n\t}\n\tq.adapterInProgress = true", Repl: "\tq.adapterInProgress = true\n\terr := q.adapter.Begin(q.toAdapterCfg(e), cb)\n\tif err != nil {\n\t\treturn err\n\t}"}}},
 	{Name: "drop-done-batch-failure", ExpectKey: "C06.R1", Edits: []Edit{{File: "tq/transfer_queue.go", Find: "					hasNonRetriableObjects = true\n					q.wait.Done()", Repl: "					hasNonRetriableObjects = true"}}},
 	{Name: "drop-done-object-error", ExpectKey: "C06.R2", Edits: []Edit{{File: "tq/transfer_queue.go", Find: "			q.errorc <- errors.Wrapf(o.Error, \"[%v] %v\", o.Oid, o.Error.Message)\n			q.Skip(o.Size)\n			q.wait.Done()", Repl: "			q.errorc <- errors.Wrapf(o.Error, \"[%v] %v\", o.Oid, o.Error.Message)\n			q.Skip(o.Size)"}}},
